@@ -230,15 +230,27 @@ def fx6(x):
     return int(max(-2000000000, min(2000000000, round(x * 1e6))))
 
 
-def close(a, b):
+def close(a, b, rel=1e-9):
     a, b = float(np.ravel(a)[0]), float(np.ravel(b)[0])
     if not (math.isfinite(a) and math.isfinite(b)):
         return a == b or (math.isnan(a) and math.isnan(b))
-    return abs(a - b) <= 1e-9 * (1.0 + abs(a))
+    return abs(a - b) <= rel * (1.0 + abs(a))
 
 
 def probe(dim):
     return np.array([0.3] if dim == 1 else [0.3, 0.6])
+
+
+def gp_view(model, dim):
+    """what a posterior's surrogate predicts (mean and variance) on five points across the bounds"""
+    pts = np.linspace(BOUNDS[0] + 0.1, BOUNDS[1] - 0.1, 5)[:, None] * np.ones((1, dim))
+    mu, var = model.predict(pts)
+    return np.concatenate([np.ravel(mu), np.ravel(var)])
+
+
+def close_all(a, b):
+    # (1e-6: the surrogate predicts through another code path while is_sampling is set; a new evidence point moves these by far more)
+    return bool(len(a) == len(b) and all(close(x, y, 1e-6) for x, y in zip(a, b)))
 
 
 def gp_minima(b, dim):
@@ -252,7 +264,15 @@ def gp_minima(b, dim):
     else:
         g = np.linspace(BOUNDS[0], BOUNDS[1], 61)
         grid = np.array([[u, v] for u in g for v in g])
-    gm = float(np.min(tm.predict_mean(np.vstack([grid, X]))))
+    pts = np.vstack([grid, X])
+    vals = np.ravel(tm.predict_mean(pts))
+    gm = float(np.min(vals))
+    if dim == 2:          # second level: a fine grid around the best coarse point
+        c = pts[int(np.argmin(vals))]
+        h = (BOUNDS[1] - BOUNDS[0]) / 60
+        u = np.clip(np.linspace(c[0] - h, c[0] + h, 41), BOUNDS[0], BOUNDS[1])
+        v = np.clip(np.linspace(c[1] - h, c[1] + h, 41), BOUNDS[0], BOUNDS[1])
+        gm = min(gm, float(np.min(tm.predict_mean(np.array([[a, b] for a in u for b in v])))))
     em = float(np.min(tm.predict_mean(X)))
     return fx6(gm), fx6(em)
 
@@ -388,7 +408,7 @@ def record(sc):
                 if cls == "BolfiPosterior":
                     gm, em = gp_minima(b, dim) if thr is None else (0, 0)
                     out.update(kind="posterior", othr=fx6(ret.threshold), gmin=gm, emin=em)
-                    held[o].append(dict(P=ret, at=int(b.target_model.n_evidence), thr0=fx6(ret.threshold), lp0=ret.logpdf(probe(dim))))
+                    held[o].append(dict(P=ret, at=int(b.target_model.n_evidence), thr0=fx6(ret.threshold), view0=gp_view(ret.model, dim)))
                 elif cls == "OptimizationResult":
                     xm = np.array([float(np.ravel(ret.x_min[nm])[0]) for nm in b.target_model.parameter_names])
                     gm, em = gp_minima(b, dim)
@@ -414,9 +434,10 @@ def record(sc):
                         e["fin"] = []
                 for h in held[o][-2:]:
                     P = h["P"]
-                    lp = P.logpdf(probe(dim))
-                    e["posts"].append(dict(at=h["at"], sees=int(P.model.n_evidence), thr0=h["thr0"], thr=fx6(P.threshold), same=close(lp, h["lp0"]),
-                                           live=close(lp, fresh_posterior(b, P.threshold).logpdf(probe(dim)))))
+                    view = gp_view(P.model, dim)
+                    e["posts"].append(dict(at=h["at"], sees=int(P.model.n_evidence), thr0=h["thr0"], thr=fx6(P.threshold), same=close_all(view, h["view0"]),
+                                           live=bool(close_all(view, gp_view(b.target_model, dim)) and
+                                                     close(P.logpdf(probe(dim)), fresh_posterior(b, P.threshold).logpdf(probe(dim)), 1e-6))))
             events.append(e)
     finally:
         elfi.client.set_client(old_client)
